@@ -103,8 +103,9 @@ def check_case(case, ctx):
         fin = (c > W.TMIN) & (c < W.TMAX)
         expc = np.where(fin, c + np.float32(shift), c)
         ctx.count('shift_pairs')
-        if not reuse and case.get('epochs', 1) == 1 and not np.array_equal(expc, c2):
-            i, j = [int(x[0]) for x in np.nonzero(expc != c2)]
+        live, live2 = W.live_mask(sim, c), W.live_mask(sim2, c2)      # entries that belong to a waveform (not: padding rows, content behind a terminator)
+        if not reuse and case.get('epochs', 1) == 1 and (c.shape != c2.shape or not np.array_equal(live, live2) or not np.array_equal(expc[live], c2[live])):
+            i, j = [int(x[0]) for x in np.nonzero((live != live2) | (live & (expc != c2)))] if c.shape == c2.shape else (0, 0)
             ctx.violation('rigid-shift', f'shifting every input transition by {shift} does not shift memory row {i} lane {j}: {c[i, j]} -> {c2[i, j]}; '
                           f'{case["cls"]} caps={case["caps"]}; {G.net_text(net)[:400]}', dict(case, shift=shift))
             return
@@ -133,8 +134,9 @@ def check_case(case, ctx):
             if not np.array_equal(np.where(f4, s[k4] * np.float32(sc), s[k4])[cap_rows], s3[k4][cap_rows]):
                 ctx.violation('rigid-scale', f's[{k4}] does not scale by {sc}; reuse={reuse}; {G.net_text(net)[:400]}', dict(case, scale=sc))
                 return
-        if not reuse and case.get('epochs', 1) == 1 and not np.array_equal(exps, c3):
-            i, j = [int(x[0]) for x in np.nonzero(exps != c3)]
+        live3 = W.live_mask(sim3, c3)
+        if not reuse and case.get('epochs', 1) == 1 and (c.shape != c3.shape or not np.array_equal(live, live3) or not np.array_equal(exps[live], c3[live])):
+            i, j = [int(x[0]) for x in np.nonzero((live != live3) | (live & (exps != c3)))] if c.shape == c3.shape else (0, 0)
             ctx.violation('rigid-scale', f'scaling times and delays by {sc} does not scale memory row {i} lane {j}: {c[i, j]} -> {c3[i, j]}; {G.net_text(net)[:400]}',
                           dict(case, scale=sc))
             return
